@@ -15,6 +15,7 @@ type heapToken struct{ _ int }
 type MapData struct {
 	Keys []string // canonical keys in insertion order
 	M    map[string]*MapEntry
+	SymKeys bool // some key has symbolic bytes: lookups compare keys one by one
 }
 
 type MapEntry struct{ K, V Value }
@@ -66,7 +67,7 @@ func (h *Heap) own(id int) *Obj {
 	n.owner = h.tok
 	switch x := o.V.(type) {
 	case *MapData:
-		md := &MapData{Keys: append([]string(nil), x.Keys...), M: make(map[string]*MapEntry, len(x.M))}
+		md := &MapData{Keys: append([]string(nil), x.Keys...), M: make(map[string]*MapEntry, len(x.M)), SymKeys: x.SymKeys}
 		for k, e := range x.M {
 			ce := *e
 			ce.V = copyVal(e.V)
